@@ -99,6 +99,8 @@ fn family(group: &str) -> String {
         "one-cube-manifold"
     } else if group.starts_with('L') && group.contains("/self") {
         "lens-space"
+    } else if group.starts_with('R') && group.contains("/self") {
+        "random-triangulation"
     } else if group.contains("/self") {
         "self"
     } else {
